@@ -35,8 +35,18 @@ func vfC09Oracle(in *vfGWInst, evFull string, pre, post *vfSnap) {
 	g.n.h.hmu.Unlock()
 	fromPeer := ""
 	switch f[0] {
-	case "pub", "graft", "prune", "prunepx", "ihave", "iwant", "idw":
+	case "pub", "graft", "prune", "prunepx", "ihave", "iwant", "idw", "pubgraft":
 		fromPeer = f[1]
+	}
+	// (an RPC can carry payload and control at once: pubgraft is judged as the publication and as the GRAFT it carries)
+	pubLabel, graftTopic := "", ""
+	switch f[0] {
+	case "pub":
+		pubLabel = f[2]
+	case "graft":
+		graftTopic = f[2]
+	case "pubgraft":
+		pubLabel, graftTopic = f[2], f[3]
 	}
 	if f[0] != "prunepx" && len(attempts) > 0 && f[0] != "adv" && f[0] != "hb" {
 		in.bad("c09:unexpected-connect", "host.Connect(%v) was attempted", attempts)
@@ -93,33 +103,35 @@ func vfC09Oracle(in *vfGWInst, evFull string, pre, post *vfSnap) {
 		}
 		if throttled {
 			in.count("rpc_throttled_by_gater")
-			switch f[0] {
-			case "pub":
+			if pubLabel != "" {
 				for _, d := range g.deliv {
-					if d.id == f[2] {
-						in.bad("c09:gater-delivered", "payload %s of %s was delivered although the gater throttled the RPC", f[2], x)
+					if d.id == pubLabel {
+						in.bad("c09:gater-delivered", "payload %s of %s was delivered although the gater throttled the RPC", pubLabel, x)
 					}
 				}
 				for _, name := range g.order {
 					for _, r := range g.sentTo(name) {
 						if len(r.GetPublish()) > 0 {
-							in.bad("c09:gater-forwarded", "payload %s of %s was forwarded to %s although the gater throttled the RPC", f[2], x, name)
+							in.bad("c09:gater-forwarded", "payload %s of %s was forwarded to %s although the gater throttled the RPC", pubLabel, x, name)
 						}
 					}
 				}
-			case "prune":
-				if pre.Mesh[f[2]][x] && post.Mesh[f[2]][x] {
-					in.bad("c09:gater-suppressed-control", "PRUNE from %s was not processed because the gater throttled the RPC", x)
-				}
-			case "graft":
-				t := f[2]
+			}
+			if graftTopic != "" {
+				t := graftTopic
 				_, joined := pre.Mesh[t]
 				_, backedOff := pre.Backoff[t][x]
 				if joined && !pre.Mesh[t][x] && !backedOff && sc >= 0 && !pre.Direct[x] && len(pre.Mesh[t]) < gs.params.Dhi && pre.Topics[t][x] {
 					in.count("gater_throttled_graft_judged")
 					if !post.Mesh[t][x] {
-						in.bad("c09:gater-suppressed-control", "GRAFT from %s was not processed because the gater throttled the RPC", x)
+						in.bad("c09:gater-suppressed-control", "GRAFT from %s was not processed because the gater throttled the RPC (%s)", x, f[0])
 					}
+				}
+			}
+			switch f[0] {
+			case "prune":
+				if pre.Mesh[f[2]][x] && post.Mesh[f[2]][x] {
+					in.bad("c09:gater-suppressed-control", "PRUNE from %s was not processed because the gater throttled the RPC", x)
 				}
 			case "ihave":
 				if !mon.seen[f[3]] && pre.PeerHave[x] == 0 && pre.IAsked[x] == 0 && sc >= gs.gossipThreshold {
@@ -144,8 +156,8 @@ func vfC09Oracle(in *vfGWInst, evFull string, pre, post *vfSnap) {
 				}
 			}
 		}
-		if f[0] == "pub" && !throttled {
-			mon.seen[f[2]] = true
+		if pubLabel != "" && !throttled {
+			mon.seen[pubLabel] = true
 		}
 		switch f[0] {
 		case "ihave":
@@ -346,8 +358,8 @@ func vfC09Scenarios(thorough bool) []*vfGWScenario {
 	out = append(out, &vfGWScenario{Name: "gater", Cfg: vfGWCfg{Router: "gossip", Peers: peers[:2:2], Topics: []string{"t"}, Params: "d2", Scoring: true, Gater: true, ValThrottle: 1, SeenTTL: 3600,
 		Validators: []vfValCfg{{Name: "V", Topic: "t", Gated: true, GateOnly: []string{"m1", "m5"}}},
 		Prefix:     []string{"conn:a", "conn:b", "join:t", "sub:a:t", "sub:b:t", "pub:a:m1", "pub:a:m2", "vrel:V:m1:R", "pub:b:m5", "vrel:V:m5:R"}},
-		Alphabet: []string{"pub:a:m3", "pub:b:m6", "graft:a:t", "prune:a:t", "ihave:a:t:m4", "idw:a:m4", "score:b:-5", "score:a:-4.5", "hb"}, Msgs: gmsgs, Depth: d,
-		DevKinds: []string{"coin"}, DevEvents: []string{"pub", "graft", "prune", "ihave", "idw"}, DevMax: 4})
+		Alphabet: []string{"pub:a:m3", "pub:b:m6", "graft:a:t", "pubgraft:a:m4:t", "prune:a:t", "ihave:a:t:m4", "idw:a:m4", "score:b:-5", "score:a:-4.5", "hb"}, Msgs: gmsgs, Depth: d,
+		DevKinds: []string{"coin"}, DevEvents: []string{"pub", "graft", "pubgraft", "prune", "ihave", "idw"}, DevMax: 4})
 	return out
 }
 
